@@ -11,9 +11,9 @@ EXPLANATION = ("Structural rules over the typed HIR of the ID allocator and of e
                "N2 candidate starts at the stored counter, is reset to 1 exactly when it equals i32::MAX and is "
                "otherwise incremented by 1, table initialised to (0, empty); N3 the search loop is left only when "
                "the freshly updated candidate is not in the in-use set; N4 the same candidate is stored, inserted and "
-               "returned; N5 who-may-touch: counter writes and set inserts only in the allocator, allocator called only "
+               "returned; N5 who-may-touch: counter writes (through any alias of the place: `guard.0`, a destructured or re-borrowed guard) and set inserts only in the allocator - a store in the driver loop is accepted only when its arm's paths show it writes back the counter's own current value -, allocator called only "
                "from the operation issue point whose request tuple carries that value, set removals only in the driver "
-               "loop; N6 every release in the driver is accompanied by un-routing of the same ID (or is the Abandon "
+               "loop; N6 on every enumerated path of a select! arm a release comes with the un-routing of the same ID (or is the Abandon "
                "request's own, never-answered ID). Not decided: the arithmetic of 2^31 wrap-around as a runtime fact "
                "beyond this shape; scheduler interleavings (the single Mutex critical section is the argument).")
 TRUSTED = ['std::sync::Mutex mutual exclusion', 'std HashSet semantics']
@@ -128,11 +128,49 @@ def run(ctx):
         ctx.add('N2.table-init', path, loc(n), ok, 'the ID table must start as (0, empty set)')
 
     # ---- N5 who may touch
+    # The counter (component 0 of the locked table) is stored to by the allocator only, where N2/N4/N8 decide what is stored.  A
+    # store is recognised through whatever names the place: `guard.0`, `(*guard).0`, a `&mut` obtained by destructuring or
+    # re-borrowing the guard.  Any other store must be shown to leave the counter as it is: in the driver loop it is judged on the
+    # enumerated paths of its arm (the value stored is the counter's own current value, read under the same guard, nothing stored
+    # to it in between); everywhere else, and when the paths do not show it, it is a violation.  Handing a `&mut` of the counter
+    # to another function is a store this analysis cannot follow.
+    import driver as drv
+    arm_node_role = {}
+    for role, a in C.arms.items():
+        if isinstance(a, dict):
+            for x, _ in walk(a['body']):
+                arm_node_role[id(x)] = role
+    for path, h in f.hir.items():
+        if not any(anchors.is_idguard(x.get('ty')) for x, _ in walk(h['body'])):
+            continue        # the counter is reachable through the guard only (N5.guard-escapes: the guard is never handed on)
+        B = C.alloc if path == C.alloc_path else C.loop if path == C.loop_path else hirq.Body(f, h)
+        for n, c in walk(h['body']):
+            if n['k'] in ('Assign', 'AssignOp') and C.is_counter_place(n['l'], B) and path != C.alloc_path:
+                role = arm_node_role.get(id(n)) if path == C.loop_path else None
+                if role is None:
+                    ctx.fail('N5.counter-write', path, loc(n), 'the ID counter is written outside the allocator')
+                    continue
+                n_ev, bad = 0, None
+                for o in drv.arm_paths(C, role)[0]:
+                    sts = sem.stores(o)
+                    for i, place, val, node in sts:
+                        if node is not n:
+                            continue
+                        n_ev += 1
+                        earlier = [1 for j, p2, _v, _n in sts if j < i and sem.strip_site(p2) == sem.strip_site(place)]
+                        if val != place or earlier:
+                            bad = val
+                ctx.add('N5.counter-write', path, loc(n), n_ev > 0 and bad is None,
+                        'the ID counter is written outside the allocator%s: numbering no longer only advances within 1..2^31-1 (an ID can leave the range, or one still in use or just released can be handed out again)'
+                        % ('' if bad is None else ', set to ' + absx.fmt(bad)[:70]))
+            if n['k'] in ('Call', 'MethodCall') and path != C.alloc_path:
+                cands = list(n['args']) + ([n['recv']] if n['k'] == 'MethodCall' else [])
+                for a in cands:
+                    if ((a.get('adj_ty') or a.get('ty') or '').startswith('&mut') or (a.get('ty') or '').startswith('&mut')) and C.is_counter_place(a, B):
+                        ctx.fail('N5.counter-write', path + '|escapes', loc(n), 'a mutable reference to the ID counter is handed to `%s` outside the allocator' % (callee_of(n) or '?').rsplit('::', 1)[-1])
     for path, h in f.hir.items():
         for n, c in walk(h['body']):
             if n['k'] == 'Assign' or n['k'] == 'AssignOp':
-                if C.is_counter_place(n['l']) and path != C.alloc_path:
-                    ctx.fail('N5.counter-write', path, loc(n), 'the ID counter is written outside the allocator')
                 l = anchors.peel(n['l'])
                 if anchors.is_idguard(l.get('ty')) or C.is_idset_place(n['l']):
                     ctx.fail('N5.table-overwrite', path, loc(n), 'the ID table / in-use set is overwritten wholesale')
@@ -188,21 +226,32 @@ def run(ctx):
         ctx.add('N5.wire-id-is-allocated', O.path, loc(s), ok, 'the ID placed in the request tuple is not the value returned by the allocator')
     ctx.floor('N5', 'request sends', len(sends), 1)
 
-    # ---- N6 no release of an ID that is still routed
+    # ---- N6 no release of an ID that is still routed.  Decided on the enumerated paths of the select! arms (a branch that cannot
+    # be taken - `if let Some(extra) = None` left behind by an expanded helper - is on no path): every release of an ID on a path
+    # comes with the removal, on the same path, of a routing entry under the same ID, or is the release of the Abandon request's own,
+    # never-answered ID.  Every release site of the loop must lie on some enumerated path (else the rule has not looked at it).
     L = C.loop
     releases = anchors.method_calls(L.root, 'HashSet::<T, S, A>::remove', C.is_idset_place)
-    unroutes = [(n, c, w) for w in ('result', 'search')
-                for n, c in anchors.method_calls(L.root, 'HashMap::<K, V, S, A>::remove', lambda r, w=w: C.is_map_place(r, w))]
-    req = C.arms['request']
+    REQ = ('variant', drv.ARM, 'Some', 0)
+    OWN, OP = ('field', REQ, '0'), ('field', REQ, '1')
+    seen = set()
+    interps = {}
+    for role, a in C.arms.items():
+        if not isinstance(a, dict):
+            continue
+        pouts, interps[role] = drv.arm_paths(C, role)
+        for o in pouts:
+            if o.kind == 'div':
+                continue
+            for i, name, args, node in drv.map_calls(C, o, 'idset', ('remove',)):
+                k = args[1]
+                seen.add(id(node))
+                unrouted = any(a2[1] == k and drv.net_registration(C, o, w, k) != 'kept'
+                               for w in ('result', 'search') for _i, _n, a2, _nd in drv.map_calls(C, o, w, ('remove', 'remove_entry')))
+                own_abandon = role == 'request' and k == OWN and absx.pc_variant(o.st.pc, lambda v: v == OP, 'LdapOp::Abandon') is True
+                ctx.add('N6.release-implies-unrouted', '%s|%s|%s' % (L.path, role, absx.fmt(k)[-40:]), loc(node), unrouted or own_abandon,
+                        'an ID is released while its routing entry is kept: the allocator can hand it to a second operation')
     for r, rc in releases:
-        key = hirq.strip_casts(L.origin(r['args'][0]))
-        acc = [u for u, uc, w in unroutes if hirq.strip_casts(L.origin(u['args'][0])) == key and hirq.accompanies(L, r, u)]
-        own_abandon = False
-        # the Abandon request's own ID: origin is the request tuple's component 0 and the site is in the Abandon arm
-        if any(c[0] == 'arm' and hirq.pat_variant(c[1]['arms'][c[2]]['pat']) == 'LdapOp::Abandon' for c in hirq.conditions(L.context(r))):
-            o_req = L.origin_of_bind(req['bindings'][0][0])
-            own_id = hirq.project(hirq.project(o_req, ('variant', 'Some', 0)), ('tup', 0))
-            own_abandon = key == own_id
-        ctx.add('N6.release-implies-unrouted', '%s|%s' % (L.path, hirq.fmt_origin(key)), loc(r), bool(acc) or own_abandon,
-                'an ID is released while its routing entry is kept: the allocator can hand it to a second operation')
+        if id(r) not in seen and not (arm_node_role.get(id(r)) in interps and drv.never_taken(L, interps[arm_node_role[id(r)]], r)):
+            ctx.fail('N6.release-implies-unrouted', '%s|unreached' % L.path, loc(r), 'a release of an ID in the driver loop lies on no enumerated path of a select! arm: it was not analysed')
     ctx.floor('N6', 'ID releases in the driver loop', len(releases), 3)
